@@ -18,7 +18,7 @@ def run(ctx):
     all26 = set(range(1, 27))
     # 1. N=1: all 17,576 ordered triples, model theorems + replay
     r = ctx.tlc("Gen_Sign", vlib.cfg(constants={"N": 1, "SubIdx": all26, "EmitAll": True},
-                                     invariants=["TableEqualsSoS", "Rotation", "AntiSym", "ZeroIffEqual", "DetSign", "Emit"]),
+                                     invariants=["TableEqualsSoS", "Rotation", "AntiSym", "ZeroIffEqual", "DetSign", "SemanticEqualsOracle", "Emit"]),
                 workers=8)
     cases = r.tagged.get("CASE", [])
     if len(cases) != 26 ** 3:
@@ -32,7 +32,7 @@ def run(ctx):
         for _ in range(reps):
             sub = set(rnd.sample(range(1, total + 1), size))
             r = ctx.tlc("Gen_Sign", vlib.cfg(constants={"N": n, "SubIdx": sub, "EmitAll": False},
-                                             invariants=["TableEqualsSoS", "Rotation", "AntiSym", "ZeroIffEqual", "DetSign", "Emit"]),
+                                             invariants=["TableEqualsSoS", "Rotation", "AntiSym", "ZeroIffEqual", "DetSign", "SemanticEqualsOracle", "Emit"]),
                         workers=8)
             ctx.replay(r.tagged.get("CASE", []))
     # 3. distances
